@@ -939,6 +939,11 @@ def none_default_discipline(ctx: Context, rule: str, qualnames: Iterable[str]) -
                     if any(isinstance(x, ast.Name) and x.id == name and isinstance(x.ctx, ast.Load) for x in ast.walk(st.value)):
                         fs = facts(ctx, fi, st, expand=False)
                         is_none = (f"{name} is None", True) in fs or (f"{name} is not None", False) in fs
+                        own = any(t in (f"{name} is None", f"{name} is not None") for t, _ in fs)
+                        foreign = sorted(t for t, _ in fs for o in none_params - {name} if t in (f"{o} is None", f"{o} is not None"))
+                        if isinstance(st.value, ast.Name) and st.value.id == name:
+                            ctx.check(rule, own or not foreign, f"`{name}` is stored under its own test, not under the test of another option", fi, st,
+                                      construct=f"{fi.short}: {norm_text(st.targets[0])[:40]} = {name} under {foreign or 'no test'}")
                         ctx.check(rule, not is_none, f"`{name}` is stored (`{norm_text(st.targets[0])[:40]}`) where it was given, not where it is None", fi, st,
                                   construct=f"{fi.short}: {norm_text(st.targets[0])[:40]} = {name} under {'`' + name + ' is None`' if is_none else 'a path where it may have been given'}")
         # ... and every such parameter is used for something besides being tested (a parameter that is only compared with None is ignored)
